@@ -33,6 +33,14 @@ def e_ref(k="k", ubi="ubi", gv="gv"):
     return tot, hs
 
 
+def crules_strip(a):
+    while a.k == "cast":
+        a = a.a[0]
+    if a.k == "un" and a.op == "&":
+        return a.a[0]
+    return a
+
+
 def run(R):
     R.assume("real-number model: (x + 1.5*2^52) - 1.5*2^52 is round-to-nearest of x (checked at import by verify_rounding, "
              "valid for |x| < 2^51 under IEEE double evaluation); it differs from floor(x+0.5) only at exact halves")
@@ -100,6 +108,12 @@ def r2(R, tus):
         f = cfront.find_func(tus, fname, CFILE)
         ubi = f.params[0].name
         st = crules.stores_to_param(f, ubi)
+        if not st:
+            # the write-back may have been moved into a helper that receives ubi: then this rule cannot follow the guards
+            handed = [x for s2, x in cfront.all_exprs(f.body) if x.k == "call" and x.name not in ("inverse3x3",)
+                      and any(cfront.base_var(crules_strip(a)) is not None and cfront.base_var(crules_strip(a)).name == ubi for a in x.a)]
+            R.shape(not handed, "C06.R2", CFILE, fname, "the write-back of %s inside %s itself (it is handed to %s)" % (
+                ubi, fname, sorted(set(h.name for h in handed))))
         R.check(bool(st), "C06.R2", CFILE, f.line, fname, "stores to %s" % ubi, "the refined matrix is never written back")
         for n, x, t in st:
             conds = f.cfg.guards(n.id)
@@ -225,12 +239,18 @@ def r34(R, tus, r3n="C06.R3", r4n="C06.R4"):
         fn = m.func(qual)
         less = [c for c in ast.walk(fn) if isinstance(c, ast.Call) and (pyfacts.dotted(c.func) or "").split(".")[-1]
                 in ("less", "less_equal", "greater", "greater_equal") and len(c.args) == 2 and "drlv2" in src(c.args[0])]
-        R.check(bool(less) and all((pyfacts.dotted(c.func) or "").endswith(".less") and src(c.args[1]) == "tol" for c in less),
-                r3n, m.rel, fn.lineno, qual, "selection %s" % [src(c) for c in less],
-                "the reference must select with np.less(drlv2, tol) where tol has been squared")
+        R.shape(bool(less), r3n, m.rel, qual, "the np.less / np.greater selection on drlv2")
+        R.check(all((pyfacts.dotted(c.func) or "").endswith(".less") for c in less), r3n, m.rel, fn.lineno, qual, "selection %s" % [src(c) for c in less],
+                "the reference must select with np.less(drlv2, <squared tolerance>)")
+        # the second argument is the squared tolerance: either 'tol' after 'tol = tol * tol', or a name / expression that resolves to tol * tol
         sq = [a for a in ast.walk(fn) if isinstance(a, ast.Assign) and src(a.targets[0]) == "tol" and src(a.value).replace(" ", "") == "tol*tol"]
-        R.check(len(sq) == 1 and all(c.lineno > sq[0].lineno for c in less), r3n, m.rel, fn.lineno, qual, "tol = tol * tol precedes the selection",
-                "the tolerance is not squared (exactly once) before it is compared with the squared error")
+        for c in less:
+            a1 = src(c.args[1])
+            res = pyfacts.resolved_src(fn, c.args[1]).replace(" ", "").replace("float(", "(").replace("(", "").replace(")", "")
+            squared_name = (a1 == "tol" and len(sq) == 1 and c.lineno > sq[0].lineno)
+            squared_expr = (a1 != "tol" and res in ("tol*tol", "tol**2", "self.hkl_tol*self.hkl_tol") and not sq)
+            R.check(squared_name or squared_expr, r3n, m.rel, c.lineno, qual, "np.less(drlv2, %s) with %s == tol*tol" % (a1, a1),
+                    "the tolerance compared with the squared error is not tol squared exactly once (resolves to '%s')" % res)
     # normal equations of the Python references (tolerant interpretation, one generic selected peak)
     vn_py.INV_MODE[0] = "atoms"
     try:
@@ -331,7 +351,13 @@ def r5(R, tus):
             "the magic-number rounding construct is no longer recognised (expected >= 12 uses)")
     # verify_rounding compares fast and safe variants
     vr = cfront.find_func(tus, "verify_rounding", CFILE)
-    calls = [x.name for st, x in cfront.all_exprs(vr.body) if x.k == "call"]
-    rn = sum(1 for st, x in cfront.all_exprs(vr.body) if x.k == "bin" and crules.is_rnd(x) is not None)
+    bodies = [vr]
+    for st, x in cfront.all_exprs(vr.body):
+        if x.k == "call":
+            g = next((h for h in cfront.all_funcs(tus) if h.name == x.name and h.file == CFILE), None)
+            if g is not None and g is not vr and g not in bodies:
+                bodies.append(g)        # one level of local helpers
+    calls = [x.name for b in bodies for st, x in cfront.all_exprs(b.body) if x.k == "call"]
+    rn = sum(1 for b in bodies for st, x in cfront.all_exprs(b.body) if x.k == "bin" and crules.is_rnd(x) is not None)
     R.check("conv_double_to_int_safe" in calls and rn >= 1, "C06.R5", CFILE, vr.line, vr.name,
             "verify_rounding compares the fast construct with conv_double_to_int_safe", "self check no longer compares the two roundings")
